@@ -22,7 +22,7 @@ ID = 'C09'
 TITLE = 'Merging with kept identifiers is a first-wins union that loses nothing'
 GEN = ['MergeDispatch']
 RULE = ('each case = 1..4 generated datasets over a shared pool of sensor ids / timestamps / image names (so that keys overlap), '
-        'every part independently present or missing in each input, a random skip list, a transfer strategy among '
+        'every part independently present or missing in each input, 30% of the multi-input cases hold a later input that lists exactly what an earlier one lists (same keys, other file bytes), a random skip list, a transfer strategy among '
         'skip/copy/link_absolute/link_relative/move, per-input tar or directory storage of each feature kind, through '
         'merge_keep_ids or the merge tool; distinct non-trivial = distinct cases in which at least one key is defined by two inputs')
 ASSUMPTIONS = [
@@ -56,6 +56,13 @@ def gen_case(rng, tier):
         if rng.random() < 0.15:
             d['sensors'] = d['sensors']    # sensors are needed on disk; keep
         dsets.append(d)
+    if n >= 2 and rng.random() < 0.3:
+        # a later input lists exactly the images, features and match pairs of an earlier one (a re-processed copy of the same
+        # capture): every data file exists in both, with different bytes (files are salted per input) - the merge must take
+        # each of them from the earlier input
+        import copy
+        j = rng.randrange(1, n)
+        dsets[j] = copy.deepcopy(dsets[rng.randrange(0, j)])
     skip = [t for t in mc.TYPE_OF_ATTR.values() if rng.random() < 0.12]
     strategy = rng.choice(['skip', 'copy', 'link_absolute', 'link_relative', 'move'])
     tar = [sorted(k for k in ('keypoints', 'descriptors', 'global_features', 'matches') if rng.random() < 0.3) for _ in range(n)]
